@@ -32,6 +32,21 @@ def is_fresh(value):
     return False
 
 
+VIEW_CALLS = {"asarray", "asanyarray", "ascontiguousarray", "asfortranarray", "atleast_1d", "atleast_2d", "ravel", "reshape", "squeeze", "view",
+              "transpose", "swapaxes", "diagonal", "require", "array"}      # np.array(x, copy=False) included conservatively
+
+
+def call_may_return_argument(call, alias):
+    f = call.func
+    name = f.attr if isinstance(f, ast.Attribute) else (f.id if isinstance(f, ast.Name) else None)
+    if name not in VIEW_CALLS:
+        return False
+    if name == "array" and not any(k.arg == "copy" for k in call.keywords):
+        return False
+    cands = list(call.args) + ([f.value] if isinstance(f, ast.Attribute) else [])
+    return any(isinstance(a, (ast.Name, ast.Subscript, ast.Attribute)) and root_name(a) in alias for a in cands)
+
+
 class FnScan(ast.NodeVisitor):
     def __init__(self, fname, func):
         self.fname, self.func = fname, func
@@ -41,6 +56,7 @@ class FnScan(ast.NodeVisitor):
         self.alias = set(self.params)        # names that may still denote caller-owned objects
         self.writes = []                     # (lineno, kind, name)
         self.globals_rng = []                # (lineno, text)
+        self.calls = []                      # (callee name, [may the i-th positional argument be caller-owned?], {keyword: ...})
 
     def visit_FunctionDef(self, node):
         if node is self.func:
@@ -63,6 +79,8 @@ class FnScan(ast.NodeVisitor):
                 if isinstance(tt, ast.Name):
                     if is_fresh(node.value):
                         self.alias.discard(tt.id)
+                    elif isinstance(node.value, ast.Call) and call_may_return_argument(node.value, self.alias):
+                        self.alias.add(tt.id)       # np.asarray(x), x.reshape(...), x.ravel(), x.view(), ... may be x itself
                     else:
                         rn = root_name(node.value) if isinstance(node.value, (ast.Name, ast.Subscript, ast.Attribute)) else None
                         if rn in self.alias or not isinstance(node.value, (ast.Name, ast.Subscript, ast.Attribute)):
@@ -83,8 +101,20 @@ class FnScan(ast.NodeVisitor):
         else:
             self.note_write(node.target, "augstore")
 
+    def may_be_owned(self, arg):
+        """can the argument expression denote (part of) an object the CALLER of this function owns?"""
+        if isinstance(arg, ast.Starred):
+            return True
+        if is_fresh(arg):
+            return False
+        if isinstance(arg, (ast.Name, ast.Subscript, ast.Attribute)):
+            return root_name(arg) in self.alias or root_name(arg) is None
+        return True
+
     def visit_Call(self, node):
         f = node.func
+        if isinstance(f, ast.Name):
+            self.calls.append((f.id, [self.may_be_owned(a) for a in node.args], {k.arg: self.may_be_owned(k.value) for k in node.keywords}))
         if isinstance(f, ast.Attribute):
             if f.attr in INPLACE_METHODS and root_name(f.value) in self.alias and not (isinstance(f.value, ast.Name) and f.value.id in ("prng", "self")):
                 self.writes.append((node.lineno, "method:" + f.attr, root_name(f.value)))
@@ -92,6 +122,9 @@ class FnScan(ast.NodeVisitor):
                 n = root_name(node.args[0])
                 if n in self.alias:
                     self.writes.append((node.lineno, "inplace-call:" + f.attr, n))
+            for k in node.keywords:
+                if k.arg == "out" and root_name(k.value) in self.alias:
+                    self.writes.append((node.lineno, "out=", root_name(k.value)))
             # np.random.<fn>(...)
             if isinstance(f.value, ast.Attribute) and f.value.attr == "random" and isinstance(f.value.value, ast.Name) and f.value.value.id in ("np", "numpy"):
                 self.globals_rng.append((node.lineno, f"np.random.{f.attr}"))
@@ -122,14 +155,47 @@ def scan(repo=None):
         for node in tree.body:
             if isinstance(node, ast.FunctionDef):
                 funcs.append((node.name, node))
+        scans = {}
         for name, fn in funcs:
             s = FnScan(name, fn)
             s.visit(fn)
+            scans[name] = (s, fn)
             for (ln, what) in s.globals_rng:
                 sites.append((mod, name, ln, what))
+        for name, (s, fn) in scans.items():
             for (ln, kind, target) in s.writes:
+                if private_write_is_local(name, fn, target, scans):
+                    continue
                 writes.append((mod, name, ln, kind, target))
     return sites, writes
+
+
+def private_write_is_local(name, fn, target, scans):
+    """A module-private helper (leading underscore, module level) may write into one of its parameters when EVERY call
+    of it in the module passes, for that parameter, an object that cannot be owned by the caller's caller (a fresh local).
+    No call site, a starred / keyword-splat call, or one aliased argument keeps the write on the list."""
+    if not name.startswith("_") or name.startswith("__") or "." in name:
+        return False
+    pos = [a.arg for a in fn.args.args]
+    if target not in pos and target not in [a.arg for a in fn.args.kwonlyargs]:
+        return False
+    found = False
+    for cname, (s, _) in scans.items():
+        for (callee, flags, kw) in s.calls:
+            if callee != name:
+                continue
+            found = True
+            if None in kw:                      # **kwargs at the call site
+                return False
+            if target in kw:
+                owned = kw[target]
+            elif target in pos and pos.index(target) < len(flags):
+                owned = flags[pos.index(target)]
+            else:
+                owned = False                   # parameter left at its default: not a caller's object
+            if owned:
+                return False
+    return found
 
 
 if __name__ == "__main__":
